@@ -21,12 +21,16 @@ open DendroModel
 /-- exception classes the operations document -/
 inductive Err where
   | valueError | typeError | seedDeletion
+  /-- not an exception of the library: the operation names a node that is not in the tree (or breaks another
+  precondition under which the harness issues it); `step` refuses instead of inventing a result -/
+  | badInput
 deriving DecidableEq, Repr
 
 def Err.render : Err → String
   | .valueError => "ValueError"
   | .typeError => "TypeError"
   | .seedDeletion => "SeedNodeDeletionException"
+  | .badInput => "bad-input"
 
 /-- tree + `Tree._is_rooted` -/
 structure St where
@@ -354,6 +358,11 @@ def dropLeavesFix (keep : T → Bool) : Nat → T → T
     let t' := dropLeaves keep t
     if t'.size == t.size then t else dropLeavesFix keep f t'
 
+/-- `prune_taxa`'s test on a node when it is yielded: it is a leaf by now (`c'` = the node after its children were
+processed) and its taxon is among those to prune -/
+def ptDrop (bad : Nat → Bool) (c c' : T) : Bool :=
+  c'.cs.isEmpty && (match c.taxon with | some k => bad k | none => false)
+
 mutual
 /-- first loop of `prune_taxa` (post-order; a node is tested when it is yielded, i.e. after its children were removed) -/
 def pt (bad : Nat → Bool) : T → T
@@ -361,8 +370,7 @@ def pt (bad : Nat → Bool) : T → T
 def ptL (bad : Nat → Bool) : List T → List T
   | [] => []
   | c :: cs =>
-    (if (pt bad c).cs.isEmpty && (match c.taxon with | some k => bad k | none => false) then [] else [pt bad c])
-      ++ ptL bad cs
+    (if ptDrop bad c (pt bad c) then [] else [pt bad c]) ++ ptL bad cs
 end
 
 /-- tail shared by the pruning routines: `suppress_unifurcations()` if asked, then
@@ -546,49 +554,50 @@ def shiftIdsL (k : Nat) : List T → List T
 end
 
 /-- one operation on a state.  `.error` = the documented exception; the state is then left as it was
-(`run` keeps it).  Target ids that do not name a node of the tree are rejected with `ValueError`
-(the harness never issues them). -/
+(`run` keeps it).  Target ids that do not name a node of the tree, and the other preconditions under which the
+harness issues an operation, are refused with `badInput` — never answered with an unchanged tree. -/
 def step (s : St) : Op → Except Err St
   | .removeChild p c sup =>
-    if !containsId p s.t then .error .valueError else
+    if !containsId p s.t then .error .badInput else
     match removeChild p c sup s.t with
     | .ok t => .ok { s with t := t }
     | .error e => .error e
   | .newChild p x l =>
-    if !containsId p s.t then .error .valueError else
+    if !containsId p s.t then .error .badInput else
     .ok { s with t := addChild p (leafNode (maxId s.t + 1) x l) s.t }
   | .insertNewChild p idx x l =>
-    if !containsId p s.t then .error .valueError else
+    if !containsId p s.t then .error .badInput else
     .ok { s with t := insertChild p idx (leafNode (maxId s.t + 1) x l) s.t }
   | .addSub p sub =>
-    if !containsId p s.t then .error .valueError else
+    if !containsId p s.t then .error .badInput else
     .ok { s with t := addChild p (shiftIds (maxId s.t + 1) sub) s.t }
   | .insertSub p idx sub =>
-    if !containsId p s.t then .error .valueError else
+    if !containsId p s.t then .error .badInput else
     .ok { s with t := insertChild p idx (shiftIds (maxId s.t + 1) sub) s.t }
   | .insertMove p idx c =>
-    if parentOf c s.t != some p then .error .valueError else .ok { s with t := insertMove p idx c s.t }
+    if parentOf c s.t != some p then .error .badInput else .ok { s with t := insertMove p idx c s.t }
   | .setParent c q =>
     match s.t.find? c with
-    | none => .error .valueError
+    | none => .error .badInput
     | some sub =>
-      if c == s.t.id || containsId q sub || !containsId q s.t then .error .valueError
+      if c == s.t.id || containsId q sub || !containsId q s.t then .error .badInput
       else .ok { s with t := setParent c q s.t }
   | .edgeCollapse c adj =>
-    if !containsId c s.t then .error .valueError else
+    if !containsId c s.t then .error .badInput else
     match edgeCollapse c adj s.t with
     | .ok t => .ok { s with t := t }
     | .error e => .error e
-  | .collapseClade c => .ok { s with t := collapseClade c s.t }
+  | .collapseClade c =>
+    if !containsId c s.t then .error .badInput else .ok { s with t := collapseClade c s.t }
   | .reseedAt target collapse sup =>
-    if !containsId target s.t then .error .valueError else .ok (reseedAt target collapse sup s)
+    if !containsId target s.t then .error .badInput else .ok (reseedAt target collapse sup s)
   | .rerootAtNode target ub sup collapse =>
-    if !containsId target s.t then .error .valueError else .ok (rerootAtNode target ub sup collapse s)
+    if !containsId target s.t then .error .badInput else .ok (rerootAtNode target ub sup collapse s)
   | .rerootAtEdge head l1 l2 ub sup =>
-    if (parentOf head s.t).isNone || head == s.t.id then .error .valueError
+    if (parentOf head s.t).isNone || head == s.t.id then .error .badInput
     else .ok (rerootAtEdge head (maxId s.t + 1) l1 l2 ub sup s)
   | .toOutgroup og sup =>
-    if (parentOf og s.t).isNone then .error .valueError else .ok (toOutgroup og sup s)
+    if (parentOf og s.t).isNone then .error .badInput else .ok (toOutgroup og sup s)
   | .suppressUnif => .ok { s with t := sup s.t }
   | .collapseBasal su => .ok (collapseBasalSt su s)
   | .polytomize su =>
@@ -597,11 +606,11 @@ def step (s : St) : Op → Except Err St
     let s1 : St := { s with t := cu thr s.t }
     .ok (if ub then encodeStruct true true s1 else s1)
   | .resolve limit ub =>
-    if limit < 2 then .error .valueError else
+    if limit < 2 then .error .badInput else
     let s1 : St := { s with t := (rp limit s.t (maxId s.t + 1)).1 }
     .ok (if ub then encodeStruct true true s1 else s1)
   | .pruneSubtree c ub sup =>
-    if !containsId c s.t then .error .valueError else pruneSubtree c ub sup s
+    if !containsId c s.t then .error .badInput else pruneSubtree c ub sup s
   | .filterLeaves keep recursive ub sup => filterLeaves keep recursive ub sup s
   | .pruneNoTaxa recursive ub sup => .ok (pruneNoTaxa recursive ub sup s)
   | .pruneTaxa bits ub sup => .ok (pruneTaxa (fun k => bits.contains k) ub sup s)
@@ -614,7 +623,7 @@ def step (s : St) : Op → Except Err St
   | .reorient k mode =>
     -- `randomly_reorient` under a scripted rng: `sample(nodes(), 1)` yields the k-th node in pre-order
     match s.t.find? k with
-    | none => .error .valueError
+    | none => .error .badInput
     | some n =>
       let s1 := if n.cs.isEmpty && k != s.t.id then toOutgroup k true s else reseedAt k true true s
       .ok { s1 with t := rotate mode s1.t }
